@@ -139,6 +139,12 @@ def check(ctx: Ctx):
     render.check_scaling(ctx)
     render.check_real_harmonics(ctx)
     render.check_sum_clip(ctx)
+    # Emulsion.get_phasefield renders self[0] and self[1:]; the slice is a new Emulsion that is filled through append():
+    # a droplet that append() drops (or stores twice) is missing from (or doubled in) the image
+    from ..rules import collections as _col
+
+    _col.check_list_appends(ctx)
+    ctx.expect("PAIR", 1)
     ctx.expect("DIMGUARD", 3)
     ctx.expect("DIST", 4)
     ctx.expect("SHARP", 3)
